@@ -136,6 +136,24 @@ theorem first_entry (s : State) (tramp fn cp ctx exitf base : W)
   · rw [← hsp, tret, lip]
   · rw [tok, hok1, hal1]; rfl
 
+/-- The stores that `cmi_coroutine_context_init` performs (regenerated from the C source on every run) leave
+    exactly `initFrame` in the nine words below `stack_base`, touch nothing else, and leave the stack pointer at
+    `stack_base - 72` — whether the MXCSR image is written by the shipped misaligned 8-byte store or by a 32-bit
+    store (Ctx/Frame.lean: `shipped_image`, `patched_image`, `shipped_misaligned`). -/
+theorem init_frame_image (m : HMem) (tramp fn cp ctx exitf base : W) :
+    (List.range 9).map (image (runStores m (currentStores tramp fn cp ctx exitf base)))
+      = initFrame tramp fn cp ctx exitf base ∧
+    currentSpBelow = 72 ∧
+    ∀ x, (x = 0 ∨ 72 < x) → runStores m (currentStores tramp fn cp ctx exitf base) x = m x := by
+  refine ⟨?_, rfl, ?_⟩
+  · simp [List.range, List.range.loop, image, runStores, currentStores, CStore.apply, initFrame, mk64_hi_lo, initMxcsr]
+    all_goals (first | rfl | (refine ⟨?_, ?_⟩ <;> rfl))
+  · intro x h
+    have h1 : x ≠ 8 ∧ x ≠ 16 ∧ x ≠ 20 ∧ x ≠ 24 ∧ x ≠ 32 ∧ x ≠ 40 ∧ x ≠ 48 ∧ x ≠ 56 ∧ x ≠ 64 ∧ x ≠ 72 := by omega
+    have h2 : x ≠ 4 ∧ x ≠ 12 ∧ x ≠ 28 ∧ x ≠ 36 ∧ x ≠ 44 ∧ x ≠ 52 ∧ x ≠ 60 ∧ x ≠ 68 := by omega
+    simp [runStores, currentStores, CStore.apply, h1, h2]
+
+
 /-- Return of the coroutine function.  `e` is the state at the function's entry as `first_entry` describes it;
     when the function returns `v`, the instruction fetched at the return address is the second half of the
     trampoline, which jumps to the exit function with rdi = v and rsp ≡ 8 (mod 16), i.e. exactly as if the exit
